@@ -185,24 +185,3 @@ def run_case(case):
             return fail("neighbour_modified", f"neighbour at [{o},{o + n})", "", labels)
     nontrivial = (tg.is_dynamic(spec) or tg.has_refs(spec)) and "neighbour_distance_0" in labels
     return Outcome(True, labels=sorted(labels), nontrivial=nontrivial)
-
-
-# --------------------------------------------------------------------------
-# open known finding: stale item-offset cache of the constructor handle (known_findings.json)
-# --------------------------------------------------------------------------
-
-
-def _root_dynitems(case):
-    """root objects whose handle caches offsets of movable parts: arrays of dynamic items, structs with >= 2 dynamic fields"""
-    sp = case["type"]
-    if sp["k"] == "struct":
-        return sum(1 for _, ft in sp["fields"] if tg.is_dynamic(ft)) >= 2
-    return sp["k"] == "array" and tg.is_dynamic(sp["item"])
-
-
-FINDINGS = {
-    "C03-stale-root-handle": Finding(
-        has_feature=lambda case, out: _root_dynitems(case) and any(op["kind"] == "compound" and op["via"] != "handle" for op in case["ops"]),
-        neutralise=lambda case, out: dict(case, ops=[dict(op, via="handle") if op["kind"] == "compound" else op for op in case["ops"]]),
-    )
-}
